@@ -403,6 +403,10 @@ def rexpr_names(e):
 
 
 # ------------------------------------------------------------------ generator
+SOFT_P = [Fraction(1, 4), Fraction(1, 2), Fraction(1, 2), Fraction(3, 4), Fraction(1, 8)]
+HARD_OR_SOFT_P = [None, None, None] + SOFT_P + [Fraction(0), Fraction(1)]
+
+
 class Gen:
     def __init__(self, rng):
         self.rng = rng
@@ -580,13 +584,17 @@ class Gen:
             nvar += 1
             return f"v{nvar - 1}"
         n_assign = rng.randint(2, 6)
-        req_slots = sorted(rng.sample(range(1, n_assign + 2), k=rng.choice([0, 1, 1, 2])))
+        # 0-3 requirements between the assignments (plus possibly one after the objects): programs with
+        # two or more SOFT requirements (0 < p < 1, equal or different probabilities) are common, so that the
+        # joint law of the enforcement events is observed, not only each marginal
+        req_slots = sorted(rng.sample(range(1, n_assign + 2), k=rng.choice([0, 1, 1, 2, 2, 3])))
+        soft_only = rng.random() < 0.3
         had_req = False
         for i in range(n_assign + 1):
             while req_slots and req_slots[0] == i:
                 req_slots.pop(0)
                 if self.pick(("int", "rint")):
-                    p = rng.choice([None, None, Fraction(1, 4), Fraction(1, 2), Fraction(3, 4)])
+                    p = rng.choice(SOFT_P if soft_only else HARD_OR_SOFT_P)
                     stmts.append(("require", p, self.cond()))
                     had_req = True
             if i == n_assign:
@@ -620,7 +628,7 @@ class Gen:
             props = [(f"foo{q}", self.int_expr(1)) for q in range(rng.randint(0, 2))]
             stmts.append(("object", 20 * j, props))
         if rng.random() < 0.3 and self.pick(("int", "rint")):
-            stmts.append(("require", rng.choice([None, Fraction(1, 2)]), self.cond(0)))
+            stmts.append(("require", rng.choice([None, Fraction(1, 2), Fraction(1, 4)]), self.cond(0)))
         np_ = rng.randint(1, 3)
         for q in range(np_):
             r = rng.random()
